@@ -75,34 +75,52 @@ def run(ctx):
         else:
             ctx.inst("I2", "%s %s" % (cls.module.relpath, name), "members %s" % sorted(cls.members), "strategy only")
     nxt = p.func("AbstractIter", "__next__")
+    from .common import none_test, resolve_local
+    cfg = typer.cfg_of(nxt)
+    selfn = nxt.selfname
+    field = "%s.__iter" % selfn
+    aliases = {field}
+    for n_ in walk_own(nxt.node):
+        if isinstance(n_, ast.Assign) and len(n_.targets) == 1 and isinstance(n_.targets[0], ast.Name) and norm(n_.value) == field:
+            aliases.add(n_.targets[0].id)
     rets = [r for r in walk_own(nxt.node) if isinstance(r, ast.Return)]
-    if len(rets) == 1 and norm(rets[0].value) == "next(self.__iter)":
+    if len(rets) == 1 and isinstance(rets[0].value, ast.Call) and norm(rets[0].value.func) == "next" and len(rets[0].value.args) == 1 \
+            and norm(rets[0].value.args[0]) in aliases:
         ctx.inst("I2", nxt, rets[0], "each item of the strategy generator is passed on unchanged")
     else:
-        ctx.viol("I2", nxt, nxt.node, "__next__ does not return next(self.__iter) unchanged", construct="AbstractIter.__next__ return")
+        ctx.viol("I2", nxt, nxt.node, "__next__ does not return next(<the strategy generator>) unchanged", construct="AbstractIter.__next__ return")
     it = p.func("AbstractIter", "__iter__")
-    rets = [r for r in walk_own(it.node) if isinstance(r, ast.Return)]
-    if not (len(rets) == 1 and norm(rets[0].value) == it.selfname):
+    irets = [r for r in walk_own(it.node) if isinstance(r, ast.Return)]
+    if not (len(irets) == 1 and norm(irets[0].value) == it.selfname):
         ctx.viol("I2", it, it.node, "__iter__ does not return self", construct="AbstractIter.__iter__ return")
-    # the strategy generator is created once (lazily) from __init
-    stores = [n for n in walk_own(nxt.node) if isinstance(n, ast.Assign) and norm(n.targets[0]) == "self.__iter"]
-    cfg = typer.cfg_of(nxt)
-    ok = False
-    for s_ in stores:
-        if norm(s_.value) == "self.__init()":
-            for cn in cfg.nodes_of(s_):
-                gs = cfg.guards_of(cn)
-                from .common import none_test
-                if any(none_test(c) == ("self.__iter", True) and o is True for c, o, _ in gs):
-                    ok = True
-    if ok and len(stores) == 1:
-        ctx.inst("I2", nxt, stores[0], "strategy generator created once, on first use")
+    # the strategy generator is created once (when the stored one is None) from __init and stored back
+    creates = [c for c in walk_own(nxt.node) if isinstance(c, ast.Call) and norm(c.func) == "%s.__init" % selfn]
+    ok = len(creates) == 1
+    if ok:
+        holders = [cn for cn in cfg.nodes if cn.kind == "stmt" and any(x is creates[0] for x in ast.walk(cn.ast))]
+        ok = bool(holders)
+        for cn in holders:
+            gs = cfg.guards_of(cn)
+            if not any((none_test(c) is not None and none_test(c)[0] in aliases and none_test(c)[1] is True and o is True) for c, o, _ in gs):
+                ok = False
+        # stored back into the field: in the same statement or through the alias
+        stored = False
+        for n_ in walk_own(nxt.node):
+            if isinstance(n_, ast.Assign) and any(norm(t) == field for t in n_.targets):
+                v = n_.value
+                if v is creates[0] or (isinstance(v, ast.Name) and v.id in aliases):
+                    stored = True
+        ok = ok and stored
+    if ok:
+        ctx.inst("I2", nxt, creates[0], "strategy generator created once, on first use, and kept")
     else:
-        ctx.viol("I2", nxt, nxt.node, "the strategy generator is not created exactly once (when self.__iter is None)", construct="AbstractIter.__next__ start-up")
+        ctx.viol("I2", nxt, nxt.node, "the strategy generator is not created exactly once (when the stored one is None) and kept", construct="AbstractIter.__next__ start-up")
     # ---------------------------------------------------------------- ZigZag
     zz = p.func("ZigZagGroupIter", "_iter")
     ctx.touch(zz)
     ok, why, where = zigzag_alternation(zz)
+    if not ok and why.startswith("unrecognised"):
+        raise AnalysisError("C05 I2 cannot follow how ZigZagGroupIter alternates: %s" % why)
     if ok:
         ctx.inst("I2", zz, where, why)
     else:
@@ -113,7 +131,11 @@ def run(ctx):
 
 
 class _Unknown(Exception):
-    pass
+    """the abstract run cannot follow a construct (no verdict)"""
+
+
+class _Dependent(Exception):
+    """the unchanged/reversed decision depends on something that is not a constant-initialised position counter"""
 
 
 def _const_eval(e, env):
@@ -122,8 +144,13 @@ def _const_eval(e, env):
         return e.value
     if isinstance(e, ast.Name):
         if e.id in env:
-            return env[e.id]
-        raise _Unknown(e.id)
+            v = env[e.id]
+            if isinstance(v, (bool, int)):
+                return v
+            raise _Dependent("`%s` (a level group, not a counter)" % e.id)
+        raise _Dependent("`%s`, which is not initialised to a constant before the loop" % e.id)
+    if isinstance(e, (ast.Attribute, ast.Subscript, ast.Call)):
+        raise _Dependent("`%s` (a run-time value, not the position of the group)" % norm(e))
     if isinstance(e, ast.UnaryOp):
         v = _const_eval(e.operand, env)
         if isinstance(e.op, ast.Not):
@@ -182,7 +209,7 @@ def zigzag_alternation(zz):
         if isinstance(n, ast.Assign) and len(n.targets) == 1 and isinstance(n.targets[0], ast.Name) and not any(n is x for x in ast.walk(loop)):
             try:
                 env[n.targets[0].id] = _const_eval(n.value, env)
-            except _Unknown:
+            except (_Unknown, _Dependent):
                 pass
     group_var, counter_var, counter_start = None, None, 0
 
@@ -243,7 +270,7 @@ def zigzag_alternation(zz):
             elif isinstance(st, ast.Assign) and len(st.targets) == 1 and isinstance(st.targets[0], ast.Name):
                 try:
                     genv[st.targets[0].id] = gval(st.value, genv)
-                except _Unknown:
+                except (_Unknown, _Dependent):
                     genv[st.targets[0].id] = _const_eval(st.value, genv)
             elif isinstance(st, ast.AugAssign) and isinstance(st.target, ast.Name):
                 cur = _const_eval(st.target, genv)
@@ -265,6 +292,8 @@ def zigzag_alternation(zz):
                 if counter_var:
                     env[counter_var] = counter_start + k
             run(loop.body, env)
+    except _Dependent as exc:
+        return False, "whether a level is reversed depends on %s" % exc, loop
     except _Unknown as exc:
         return False, "unrecognised alternation idiom (%s)" % exc, loop
     if len(seq) < 6:
